@@ -10,14 +10,17 @@
        the node is out of the heap;
      - the stabilise loop only ever recomputes what remove_min hands it (or a dependant reached by the
        direct-recompute shortcut), and remove_min hands out queued nodes only (C11, C02).
-   Not proved: that the heap holds necessary nodes only at all times, and that "necessary" coincides
-   with "in the dependency cone of a live observer" (both need the edge invariant: every recorded
-   parent is itself necessary and every necessary parent is recorded).  The invocation log of every
+   And globally, for debug builds (where the heap's preconditions are asserted): in every history, up to
+   the first operation that fails, every node in the recompute heap is necessary; so every node the
+   stabilise loop takes out of the heap is necessary at that moment.
+   Not proved: that "necessary" coincides with "in the dependency cone of a live observer" (this needs
+   the edge invariant: every recorded parent is itself necessary and every necessary parent is
+   recorded), and release builds.  The invocation log of every
    stabilisation is compared with the crate and with the cone computed by the oracle: see DESIGN.md. *)
 From stdpp Require Import base list option numbers.
 From RecordUpdate Require Import RecordUpdate.
 From Incr.Model Require Import Base Live Engine Api.
-From Incr.Proofs Require Import Pres RchInv RchMin Needed.
+From Incr.Proofs Require Import Pres RchInv RchMin Needed OkPres HeapNeeded FrameHeapNec Histories.
 Local Open Scope Z_scope.
 
 Theorem C05_nothing_queued_nothing_runs :
@@ -47,6 +50,32 @@ Theorem C05_a_node_that_stops_being_needed_leaves_the_heap :
     exists x, nodes s' !! n = Some x /\ n_height_in_rch x < 0.
 Proof. exact became_unnecessary_leaves_heap. Qed.
 
+(* ---- globally.  [HNx [] s]: s is a debug-build state in which every node whose cell says it is in the
+   recompute heap is necessary.  [while_ok l P]: P holds after every operation of the history l up to the
+   first one that does not return normally (after a panic the library has abandoned an update half-way). *)
+Theorem C05_queued_nodes_are_necessary_in_every_history :
+  forall fuel max_height ops, while_ok (run_history fuel max_height true ops) (HNx []).
+Proof. exact history_heap_needed. Qed.
+
+(* every engine operation keeps it, from any state, for any set X of nodes that are currently exempt
+   because their last dependant or observer has just been removed and their check is still to come *)
+Theorem C05_every_operation_keeps_queued_nodes_necessary :
+  forall fuel st o X, okp (HNx X) (step fuel st o).
+Proof. exact hn_step. Qed.
+
+(* the cascade: removing a parent edge opens an exemption for the child, check_if_unnecessary closes it *)
+Theorem C05_exemptions_are_opened_and_closed :
+  (forall a b c X, okp2 (HNx X) (HNx (a :: X)) (remove_parent a b c))
+  /\ (forall fuel n X, okp2 (HNx (n :: X)) (HNx X) (check_if_unnecessary fuel n)).
+Proof. split; [exact hn_remove_parent_opens|exact hn_check_closes]. Qed.
+
+(* so what the stabilise loop takes out of the heap is a necessary node *)
+Theorem C05_popped_node_is_necessary :
+  forall s n s', HNx [] s -> rch_inv s -> rch_extra s ->
+    rch_remove_min s = (Ok (Some n), s') ->
+    exists x, nodes s !! n = Some x /\ is_necessary x = true.
+Proof. exact popped_node_is_necessary. Qed.
+
 (* non-vacuity: the only observer of a chain is dropped; the next stabilise unlinks it, the cascade empties
    the heap, and the variable write after that queues nothing: two stabilisations without a single
    recompute event *)
@@ -64,3 +93,7 @@ Print Assumptions C05_counter_zero_means_every_queue_is_empty.
 Print Assumptions C05_unneeded_variable_write_queues_nothing.
 Print Assumptions C05_check_if_unnecessary_starts_the_cascade.
 Print Assumptions C05_a_node_that_stops_being_needed_leaves_the_heap.
+Print Assumptions C05_queued_nodes_are_necessary_in_every_history.
+Print Assumptions C05_every_operation_keeps_queued_nodes_necessary.
+Print Assumptions C05_exemptions_are_opened_and_closed.
+Print Assumptions C05_popped_node_is_necessary.
